@@ -374,6 +374,9 @@ reg("Cache(size=4,16/32,reverse=False)+SRAM", "quick", kind="cache", mw=16, sw=3
 reg("Cache(size=2,32/16)+SRAM", "quick", kind="cache", mw=32, sw=16, adrs=(0, 2, 4), sels=(0b0001, 0b1111, 0b0110, 0b0000), cachesize=2, backing="sram", nbytes=32, marks=(1,))
 reg("Cache(size=2,32/8)+SRAM", "quick", kind="cache", mw=32, sw=8, adrs=(0, 2), sels=(0b0001, 0b1111, 0b0110), cachesize=2, backing="sram", nbytes=16, marks=(1,))
 reg("Cache(size=2,16/16)+envmem", "quick", kind="cache", mw=16, sw=16, adrs=(0, 2, 4), sels=(0b01, 0b11, 0b00), cachesize=2, nbytes=16, zero_env=True, marks=(1,))
+# line wider than the slave word in front of the ENVIRONMENT memory (free latency incl. zero-wait acks; the real SRAM re-writes in its ack cycle and hides early data)
+reg("Cache(size=2,32/16)+envmem", "quick", kind="cache", mw=32, sw=16, adrs=(0, 2), sels=(0b0001, 0b1111, 0b0110), cachesize=2, nbytes=32, zero_env=True, marks=(1,))
+reg("Cache(size=2,32/8)+envmem", "quick", kind="cache", mw=32, sw=8, adrs=(0, 2), sels=(0b0001, 0b1111), cachesize=2, nbytes=16, zero_env=True, marks=(1,))
 reg("Cache(size=2,16/16)+envmem,lat2", "thorough", kind="cache", mw=16, sw=16, adrs=(0, 2, 4), sels=(0b01, 0b11), cachesize=2, nbytes=16, zero_env=True, maxlat=2, marks=(1,))
 reg("Cache(size=2,16/16)+SRAM,2marks,depth5", "thorough", kind="cache", mw=16, sw=16, adrs=(0, 2, 4, 1), sels=(0b01, 0b11, 0b10), cachesize=2, backing="sram", nbytes=16, depth=5, cap=3_000_000)
 reg("Cache(size=2,16/16)+SRAM,2marks", "thorough", kind="cache", mw=16, sw=16, adrs=(0, 2, 4), sels=(0b01, 0b11), cachesize=2, backing="sram", nbytes=16, cap=3_000_000)
